@@ -196,10 +196,10 @@ func c15rep(p sm2ref.Point, how int) *internal.SM2Point {
 func c15peval(r *vx.R, c c15pcase, pts map[string]sm2ref.Point) {
 	r.Eval(1)
 	ra, rb := pts[c.A], pts[c.B]
-	var got *internal.SM2Point
+	var got, p1, p2 *internal.SM2Point
 	var want sm2ref.Point
 	kind, msg := vx.Try(func() {
-		p1, p2 := c15rep(ra, c.RA), c15rep(rb, c.RB)
+		p1, p2 = c15rep(ra, c.RA), c15rep(rb, c.RB)
 		switch c.Op {
 		case "add":
 			got = internal.NewSM2Point().Add(p1, p2)
@@ -229,6 +229,29 @@ func c15peval(r *vx.R, c c15pcase, pts map[string]sm2ref.Point) {
 	}
 	if got.GetAffineX().Cmp(got.GetAffineX_Unsafe()) != 0 {
 		r.Violation("pt:pub:AffineX-vs-Unsafe", "GetAffineX and GetAffineX_Unsafe disagree", c)
+	}
+	// results must not share storage with operands: mutate the result in place (Double, then add G) and re-read the operands
+	if got != p1 && got != p2 {
+		kind, msg = vx.Try(func() {
+			got.Double(got)
+			got.Add(got, internal.NewSM2Generator())
+		})
+		if kind != "" {
+			r.Violation("pt:pub:"+c.Op+":followup-panic", msg, c)
+		} else {
+			if g1, bad1 := refPoint(p1); c.Op != "add-alias" && c.Op != "double" && (bad1 != "" || !g1.Equal(ra)) {
+				r.Violation("pt:pub:"+c.Op+":result-aliases-operand", fmt.Sprintf("after %s(%s,%s), changing the result in place changed the first operand (shared storage)", c.Op, c.A, c.B), c)
+			}
+			if g2, bad2 := refPoint(p2); bad2 != "" || !g2.Equal(rb) {
+				if p2 != got {
+					r.Violation("pt:pub:"+c.Op+":result-aliases-operand", fmt.Sprintf("after %s(%s,%s), changing the result in place changed the second operand (shared storage)", c.Op, c.A, c.B), c)
+				}
+			}
+			w2 := sm2ref.Add(sm2ref.Add(want, want), sm2ref.G())
+			if gq, badq := refPoint(got); badq != "" || !gq.Equal(w2) {
+				r.Violation("pt:pub:"+c.Op+":followup-wrong", fmt.Sprintf("%s(%s,%s) then Double and Add G in place gives a wrong point", c.Op, c.A, c.B), c)
+			}
+		}
 	}
 	r.Shape(fmt.Sprintf("pub:%s:%s:%s:%d:%d", c.Op, c.A, c.B, c.RA, c.RB))
 }
